@@ -84,11 +84,11 @@ PROPS = {
 }
 
 
-def run_property(prop, tier, root, quiet=False, overrides=None):
+def run_property(prop, tier, root, quiet=False, overrides=None, eng=None):
     if prop not in PROPS:
         raise AnalysisError("no check registered for property %s" % prop)
     modname, explanation = PROPS[prop]
-    eng = Engine(root, overrides=overrides)
+    eng = eng or Engine(root, overrides=overrides)   # (an engine can be shared between properties: tools/quick_all.py)
     R = Run(prop, tier, root, quiet=quiet)
     R.info["source digest"] = eng.p.digest[:16]
     R.info["modules parsed"] = len(eng.p.modules)
